@@ -626,6 +626,10 @@ impl Run {
                 } else if let (3, Some((t, lo, n))) = (*beyond, hole) {
                     self.classes.hit("purge_into_hole");
                     (t, lo + pick(*pos, n.min(1 << 20) as usize) as u64)
+                } else if let (4, Some((t, i))) = (*beyond, st.last) {
+                    // a snapshot of a newer leader that ends exactly at our last index
+                    self.classes.hit("purge_at_last_index_newer_term");
+                    (t.saturating_add(1), i)
                 } else if *beyond > 0 || live.is_empty() {
                     let b = (*beyond).max(1) as u64;
                     match st.last {
